@@ -97,7 +97,9 @@ def replay_one(tx):
             if out.ok != (a["out"] == "ok"):
                 res["truncated"] = 1
                 return res
-            sess.touch()
+        # every long-lived handle looks at its containers once before the call (the simulated walks do this after
+        # every call; here the history is the shortest one and is replayed thousands of times)
+        sess.touch()
         exp_from = nm.expected(tx["from"], conc)
         got_from = nm.project(sess.nf, sess.reg)
         d = nm.diff(exp_from, got_from)
@@ -176,8 +178,9 @@ def replay_walk(item):
     sess = nm.Session(nixio, path, conc, how_seed=cseed)
     try:
         exp = nm.expected(first["from"], conc)
+        cur = first["from"]
         for k, step in enumerate(walk):
-            tx = {"hist": [w["act"] for w in walk[:k]], "act": step["act"], "from": step["from"], "to": step["to"],
+            tx = {"hist": [w["act"] for w in walk[:k]], "act": step["act"], "from": cur, "to": step["to"],
                   "obs": step.get("obs", [])}
             act = step["act"]
             okind = kind_of(tx, act)
@@ -203,7 +206,8 @@ def replay_walk(item):
                                                    {"path": path_, "expected": e, "observed": g, "gpath": generic(path_),
                                                     "in_walk_at_step": k + 1}, facet=nm.facet_of(path_), conc=conc))
                 return res
-            state_to = step["from"] if same else step["to"]
+            state_to = cur if same else step["to"]
+            cur = state_to
             want_sh = nm.expected_shallow(state_to, conc)
             for label, store in (("kept_from_creation", sess.handles), ("second_long_lived", sess.handles_b)):
                 for num, h in list(store.items()):
@@ -897,11 +901,11 @@ class ModelRun:
                 return
             tx = tx[1]
             self.stats["exported"] += 1
-            lvl = len(tx["hist"])
+            lvl = tx["hl"]
             if lvl < walkstate["level"] or (lvl == 0 and walkstate["walk"]):
                 finish_walk()
-            if lvl > walkstate["level"] or (walkstate["cands"] and lvl == len(walkstate["cands"][0]["hist"]) + 1):
-                chosen = [c for c in walkstate["cands"] if c["act"] == tx["hist"][-1]]
+            if lvl > walkstate["level"] or (walkstate["cands"] and lvl == walkstate["cands"][0]["hl"] + 1):
+                chosen = [c for c in walkstate["cands"] if c["act"] == tx["last"]]
                 if chosen:
                     walkstate["walk"].append(chosen[0])
                 walkstate["cands"] = []
